@@ -15,6 +15,9 @@ from core import (SVal, TupleVal, ExcVal, KName, KInt, KTuple, KList, KStr, Chec
 KPath = KTuple([KName, KName])
 KPath.name = 'Path'
 FS_KIND, FS_TDIR, FS_TNAME = ('$fs.kind', 0), ('$fs.tdir', 0), ('$fs.tname', 0)
+FS_CONTENT = ('$fs.content', 0)      # content token of a regular file (an atom standing for its bytes)
+AAR = z3.ArraySort(I, z3.RealSort())        # one directory row of creation times
+FS_CTIME = ('$fs.ctime', 0)
 AA = z3.ArraySort(I, I)
 ENOENT, EEXIST, EINVAL = 2, 17, 22
 
@@ -42,7 +45,8 @@ class FsMixin:
         raise CheckerError('not a (dir, name) path: %r' % (p,))
 
     def oserror(self, st, code):
-        return ExcVal('OSError', info={'errno': code})
+        # CPython raises the errno-specific subclass
+        return ExcVal({ENOENT: 'FileNotFoundError', EEXIST: 'FileExistsError'}.get(code, 'OSError'), info={'errno': code})
 
     # ---- os.path
     def b_os_path_join(self, st, fr, args, kw):
@@ -116,7 +120,14 @@ class FsMixin:
         kind = self.fs_get(st.heap, FS_KIND, d, n)
         td, tn = self.fs_get(st.heap, FS_TDIR, d, n), self.fs_get(st.heap, FS_TNAME, d, n)
         resolves = z3.And(kind != 0, z3.Or(kind != 2, self.fs_get(st.heap, FS_KIND, td, tn) != 0))
-        return self.fork_errno(st, resolves, lambda s: SI(z3.Int(fresh_name('stat'))), ENOENT)
+        def ok(s):
+            if 'OsStat' not in self.reg.classes:
+                return SI(z3.Int(fresh_name('stat')))
+            o = self.alloc(s, 'OsStat')
+            from ops import SR
+            self.write_field(s, o.z, 'OsStat', 'st_ctime', SR(self.fs_ctime_get(s.heap, d, n)))
+            return o
+        return self.fork_errno(st, resolves, ok, ENOENT)
 
     def b_os_path_exists(self, st, fr, args, kw):
         d, n = self.as_path(st, args[0])
@@ -140,6 +151,49 @@ class FsMixin:
         st.assume(z3.ForAll([k], z3.Select(dom, k) == z3.And(k > 0, z3.Select(row, k) != 0), patterns=[z3.Select(dom, k)]))
         return self.snapshot_keys(st, SVal(KSet(KName), [dom]))
 
+    # ---- C12: glob, stat times, atomic writes with content
+    def fs_ctime_get(self, heap, d, n):
+        return z3.Select(z3.Select(self.H.get(heap, FS_CTIME, AAR), d), n)
+
+    def b_glob_glob(self, st, fr, args, kw):
+        """glob.glob(os.path.join(d, '*')): the paths of the names present in d that do not start with a dot."""
+        d, pat = self.as_path(st, args[0])
+        star = lift('*', KName).z
+        if not pat.eq(star):
+            raise CheckerError('glob pattern other than <dir>/*')
+        hidden = self.reg.ufuncs.get('fs_hidden')
+        row = z3.Select(self.fs_arr(st.heap, FS_KIND), d)
+        from core import KSet
+        dom = z3.Const(fresh_name('globdom'), z3.ArraySort(I, z3.BoolSort()))
+        k = z3.Int(fresh_name('k'))
+        vis = z3.Not(hidden[0](k)) if hidden is not None else z3.BoolVal(True)
+        st.assume(z3.ForAll([k], z3.Select(dom, k) == z3.And(k > 0, z3.Select(row, k) != 0, vis),
+                            patterns=[z3.Select(dom, k)]))
+        names = self.snapshot_keys(st, SVal(KSet(KName), [dom]))
+        return SVal(KList(KPath), [names.t[0], z3.K(I, d), names.t[1]])
+
+    def model_write_safe(self, st, fr, args, kwargs):
+        """treadmill.fs.write_safe(filename, func, ...): func writes into a temporary file of the same directory which
+        is then renamed over `filename` - modelled as ONE atomic step: afterwards `filename` is a regular file holding
+        what func wrote; if func raises nothing changes under `filename` (dependency contract, assumed)."""
+        filename, func = args[0], args[1]
+        d, n = self.as_path(st, filename)
+        stream = self.alloc(st, 'WriteStream')
+        outs = []
+        for s2, r in self.call_value(st, fr, func, [stream], {}):
+            if isinstance(r, ExcVal):
+                outs.append((s2, r))
+                continue
+            content = self.read_field(s2, s2.heap, stream.z, 'WriteStream', 'content').z
+            self.fs_set(s2, FS_KIND, d, n, z3.IntVal(1))
+            self.fs_set(s2, FS_CONTENT, d, n, content)
+            arr = self.H.get(s2.heap, FS_CTIME, AAR)
+            t = z3.Real(fresh_name('ctime'))
+            s2.assume(t > 0)
+            s2.heap[FS_CTIME] = z3.Store(arr, d, z3.Store(z3.Select(arr, d), n, t))
+            outs.append((s2, None))
+        return outs
+
     def _nm(self, v):
         if isinstance(v, SVal) and v.kind in (KName, KInt):
             return v.z
@@ -153,6 +207,13 @@ class FsMixin:
         if name == 'fs_target':
             d, n = (self.as_path(st, args[0]) if len(args) == 1 else (self._nm(args[0]), self._nm(args[1])))
             return SVal(KPath, [self.fs_get(st.heap, FS_TDIR, d, n), self.fs_get(st.heap, FS_TNAME, d, n)])
+        if name == 'fs_content':
+            d, n = (self.as_path(st, args[0]) if len(args) == 1 else (self._nm(args[0]), self._nm(args[1])))
+            return SI(self.fs_get(st.heap, FS_CONTENT, d, n))
+        if name == 'fs_ctime':
+            d, n = (self.as_path(st, args[0]) if len(args) == 1 else (self._nm(args[0]), self._nm(args[1])))
+            from ops import SR
+            return SR(self.fs_ctime_get(st.heap, d, n))
         if name == 'path':
             return SVal(KPath, [self._nm(args[0]), self._nm(args[1])])
         raise CheckerError('fs spec %s' % name)
